@@ -354,7 +354,7 @@ def py_judge_line(line, out):
 
 
 def trace_validate(ctx, n, live_lines):
-    jobs = [(ctx.seed * 1000 + i, n // 16 + 1) for i in range(16)]
+    jobs = [(ctx.seed * 1000 + i, n // 16 + 1) for i in range(16)] if n else []
     res = forkpool.map_fork(rand_chunk, jobs, timeout=600)
     lines, stats = [], collections.Counter()
     for st, val in res:
@@ -427,6 +427,9 @@ def trace_validate(ctx, n, live_lines):
     if good:
         l = good[len(good) // 2]
         ctx.sample({"kind": "recorded trace line", "line": {"inp": l["inp"], "got": l["got"]}})
+    for l in [l for l in live_lines if l.get("live")][:1]:
+        ctx.sample({"kind": "live kernel record (real child process, no simkernel): " + l["label"],
+                    "descriptors": len(l["inp"]["tab"]), "answers": l.get("got", l["raw"])})
     return stats
 
 
@@ -626,7 +629,12 @@ def live_records(ctx, force_lf):
 
 
 def calibrate(ctx):
-    n, bad, skipped = sim_c14.calibrate()
+    try:
+        n, bad, skipped = sim_c14.calibrate()
+    except OSError as e:
+        ctx.cov["calibration"] = {"facts_compared_with_live_kernel": 0, "skipped": ["not possible here: %r" % e]}
+        ctx.notes.append("live calibration could not be performed (%r); the static renderer is used" % e)
+        return True
     ctx.cov["calibration"] = {"facts_compared_with_live_kernel": n, "skipped": skipped}
     if bad:
         raise core.Machinery("calibration mismatch between simkernel's descriptor rendering and the live kernel: "
@@ -693,11 +701,42 @@ def replay_one(ctx, path):
         for idx, tag, text in val["bad"]:
             ctx.disagree("conf:" + tag, "code and specification disagree: %s" % text, rep)
         ctx.case(json.dumps(rep, sort_keys=True))
+    elif "trace_line" in rep:
+        l = rep["trace_line"]
+        if l.get("live"):
+            lines = live_records(ctx, calibrate(ctx))
+        else:
+            st, val = forkpool.map_fork(replay_chunk, [l["inp"]])[0]
+            if st != "ok":
+                raise core.Machinery("replay failed: %s" % (val,))
+            lines = [val]
+        trace_validate(ctx, 0, lines)
     else:
-        raise core.Machinery("replay of recorded trace lines: rerun the check with the same VERIF_SEED")
+        raise core.Machinery("unknown replay file")
+
+
+def replay_chunk(inp):
+    """Forked: rebuild the world of a recorded line and ask the code again."""
+    w, ps = template()
+    sim_c14.install(w)
+    p, st = build_world(w, inp["tab"], inp["io"], int, int)
+    got = query(ps, st)
+    line = to_line(inp, got)
+    line["raw"] = got
+    return line
 
 
 def check(ctx):
+    try:
+        _check(ctx)
+    except core.Machinery:
+        raise
+    except Exception:  # noqa: BLE001  -- a crash of the driver is broken machinery, never a verdict
+        import traceback
+        raise core.Machinery("driver crashed:\n" + traceback.format_exc())
+
+
+def _check(ctx):
     forkpool.start(16, init=template)
     thorough = ctx.tier == "thorough"
     ctx.cov["rule"] = ("cases = abstract descriptor tables (kind x access mode x flag set x offset x ' (deleted)' situation x "
@@ -731,7 +770,7 @@ def check(ctx):
             cases.append((e, rnd.choice(SCALES[1:])))
     stats = run_cases(ctx, "enumerated-tables", cases)
     need(ctx, "the enumerated input space", REQ_ENUM, stats)
-    tstats = trace_validate(ctx, 30000 if thorough else 4000, live)
+    tstats = trace_validate(ctx, 60000 if thorough else 4000, live)
     need(ctx, "the random driver", REQ_RAND, tstats)
 
 
